@@ -88,7 +88,7 @@ def oracle(case):
         # (a fixed Weibull location at or above the smallest observation leaves no admissible parameter vector: likelihood -inf
         #  everywhere, nothing to estimate -- not judged)
         infeasible = cname == "WeibullDistribution" and "gamma" in fixed and float(np.min(data)) <= float(fixed["gamma"])
-        if not infeasible and all(float(after[p]) == float(free[p]) for p in free) and cname != "LogNormalNormFitDistribution":
+        if not infeasible and all(float(after[p]) == float(free[p]) for p in free):
             return (dict(sig, clause="fit-not-estimated"), "non-fixed parameters were not estimated (unchanged start values)")
     return None
 
